@@ -98,7 +98,7 @@ def judge(res, js, line, real, what):
             return fail('graceful=True although neither side had started the closing handshake', 'graceful')
     # application calls with valid arguments fail only with WebSocketError subclasses
     for t in tk:
-        if t.startswith('R:') and t[2:] not in ('ok', 'WebSocketClosed', 'WebSocketClosing', 'WebSocketUnavailable', 'TransportFail', 'TypeError', 'ValueError'):
+        if t.startswith('R:') and t[2:] not in ('ok', 'WebSocketClosed', 'WebSocketClosing', 'WebSocketUnavailable', 'TransportFail', 'TypeError', 'ValueError') and not t.startswith('R:WebSocketError('):
             return fail('application call failed with %s' % t[2:], 'app-error')
 
 
